@@ -205,6 +205,9 @@ def topo_family(tier):
         ("cycle", 4, [(0, 1), (1, 2), (2, 3), (3, 1)], [3], 1, False),
         ("chain_rev", 4, [(0, 1), (1, 3), (3, 2)], [2], 1, True),          # route passes a higher-numbered subnet first
         ("ring6", 5, [(0, 1), (1, 2), (2, 3), (3, 4), (4, 1)], [3], 1, True),
+        # hosts listed in an order unrelated to their addresses, a public subnet with two hosts
+        ("chain3_shuffled", 4, [(0, 1), (1, 2), (2, 3)], [3], 2, False),
+        ("two_public_shuffled", 4, [(0, 1), (0, 2), (1, 3)], [2, 3], 2, True),
     ]
     if tier == "thorough":
         import itertools
@@ -238,6 +241,10 @@ def family_spec(name, n, edges, sens, per, direct_root):
     for s in range(1, n):
         for h in range(per):
             hosts[(s, h)] = corpus.H("linux", ["ssh"], ["tomcat"], value=1 if (s + h) % 2 else 0, dvalue=1)
+    if name.endswith("_shuffled"):
+        items = list(hosts.items())
+        items = items[0:1] + items[2::2] + items[1::2][0:] if len(items) > 2 else items
+        hosts = dict(sorted(items, key=lambda kv: (kv[0][1], -kv[0][0])))      # by host id, then subnet descending
     t = corpus.topo(n, edges)
     fw = {}
     for a in range(n):
